@@ -1,8 +1,10 @@
 CONSTANTS
  Topics = {"u","t:u"}
  Groups = {"g","g/x"}
- ColonNames = {"t:u","g:t"}
+ ColonNames = {"t:u"}
  SlashNames = {"g/x"}
+ PercentNames = {}
+ DeadVariants = {3}
  MaxParts = 2
  Offs = {0,1}
  Metas = {"","m"}
@@ -21,6 +23,9 @@ CONSTANTS
  DevFetchDefaultZero = FALSE
  DevCommitUnchecked = FALSE
  DevToolWrites = FALSE
+ DevToolReaps = FALSE
+ DevEscapeFastPath = FALSE
+ DevEtcdDeletePrefix = FALSE
 INIT Init
 NEXT NextStore
 INVARIANTS C17_SameObs
